@@ -528,8 +528,9 @@ theorem mem_dispatchOrder {w : World Val Err Op} {q : PId} {c : Consumer Val} :
 
 /-- **the update step**: storing a new input value, running the invalidation watchers and then the
 where-triggers / watch callbacks (none of which raised) re-establishes coherence for the new inputs -/
-theorem set_step {S : Sem Val Err Op} (hEq : ∀ a b, S.isEqual a b = true → a = b) {w : World Val Err Op}
+theorem set_step {S : Sem Val Err Op} {w : World Val Err Op}
     (hwf : WF w) (hd : Dep w) (hc : CohOn S All w) {fuel : Nat} {p : PId} {v : Val}
+    (hEq : S.isEqual (w.vals p) v = true → w.vals p = v)
     {calls : List (Nat × Val)} {w' : World Val Err Op}
     (h : step S fuel w (.set p v) = (.set calls none, w')) :
     StaticEq (w.setVal p v) w' ∧ CohOn S All w' ∧
@@ -544,7 +545,7 @@ theorem set_step {S : Sem Val Err Op} (hEq : ∀ a b, S.isEqual a b = true → a
   · split at h
     · -- equal value: nothing is invalidated
       rename_i heq
-      have hv : w.vals p = v := hEq _ _ heq
+      have hv : w.vals p = v := hEq heq
       simp only [Prod.mk.injEq, Outcome.set.injEq, and_true] at h
       obtain ⟨rfl, rfl⟩ := h
       have hvals : (fun q => if q = p then v else w.vals q) = w.vals := by
